@@ -67,13 +67,27 @@ func parsedKeysetsSection(x *h.X) {
 	stn := []string{"EN", "DIS", "DES"}
 	ks := &tinkpb.Keyset{}
 	desc := ""
+	// key 0 additionally takes every output prefix type and, besides AES-GCM, a type that only has a key manager
+	// (no proto parser: the fallback key path): "keys with an ID requirement keep that ID" is judged on what comes back
+	pts := []tinkpb.OutputPrefixType{tinkpb.OutputPrefixType_RAW, tinkpb.OutputPrefixType_TINK, tinkpb.OutputPrefixType_CRUNCHY, tinkpb.OutputPrefixType_LEGACY}
+	shape0 := x.Choose("key0-prefix/type", 2*len(pts))
 	for i := 0; i < nkeys; i++ {
 		id := ids[x.Choose(fmt.Sprintf("id%d", i), len(ids))]
 		si := x.Choose(fmt.Sprintf("status%d", i), len(sts))
 		val, _ := proto.Marshal(&gcmpb.AesGcmKey{Version: 0, KeyValue: ref.KeyBytes(fmt.Sprintf("c11-parsed-%d", i), 16)})
-		ks.Key = append(ks.Key, &tinkpb.Keyset_Key{KeyData: &tinkpb.KeyData{TypeUrl: "type.googleapis.com/google.crypto.tink.AesGcmKey", Value: val, KeyMaterialType: tinkpb.KeyData_SYMMETRIC},
-			Status: sts[si], KeyId: id, OutputPrefixType: tinkpb.OutputPrefixType_RAW})
+		kd := &tinkpb.KeyData{TypeUrl: "type.googleapis.com/google.crypto.tink.AesGcmKey", Value: val, KeyMaterialType: tinkpb.KeyData_SYMMETRIC}
+		pt := tinkpb.OutputPrefixType_RAW
+		if i == 0 {
+			pt = pts[shape0%len(pts)]
+			if shape0 >= len(pts) {
+				kd = &tinkpb.KeyData{TypeUrl: kmOnlyURL, Value: []byte{9, 8, 7, 6}, KeyMaterialType: tinkpb.KeyData_SYMMETRIC}
+			}
+		}
+		ks.Key = append(ks.Key, &tinkpb.Keyset_Key{KeyData: kd, Status: sts[si], KeyId: id, OutputPrefixType: pt})
 		desc += fmt.Sprintf("[id=%d %s]", id, stn[si])
+		if i == 0 && shape0 != 0 {
+			desc += fmt.Sprintf("(%v %s)", pt, kd.TypeUrl[len("type.googleapis.com/"):])
+		}
 	}
 	ks.PrimaryKeyId = []uint32{1, 2, 3}[x.Choose("primary-id", 3)]
 	desc += fmt.Sprintf(" primary=%d", ks.PrimaryKeyId)
@@ -98,6 +112,27 @@ func parsedKeysetsSection(x *h.X) {
 	if why := wellFormed(hd); why != "" {
 		x.Fail("accepted-handle-ill-formed", "keyset %s: accepted, but the handle is ill-formed: %s", desc, why)
 		return
+	}
+	// the ID-requirement law on what was accepted: a key under a TINK / CRUNCHY / LEGACY prefix requires exactly the
+	// id of its entry, a RAW key requires none; added to another manager it keeps that id
+	for i := 0; i < hd.Len(); i++ {
+		e, _ := hd.Entry(i)
+		k := e.Key()
+		id, req := k.IDRequirement()
+		wantReq := ks.Key[i].OutputPrefixType != tinkpb.OutputPrefixType_RAW
+		if req != wantReq || (req && id != e.KeyID()) {
+			x.Fail("id-requirement-lost", "keyset %s: entry %d (id %#x, prefix %v): its key reports IDRequirement() = (%#x, %v)", desc, i, e.KeyID(), ks.Key[i].OutputPrefixType, id, req)
+			return
+		}
+		if req && e.KeyStatus() == keyset.Enabled {
+			m2 := keyset.NewManager()
+			got, err := m2.AddKey(k)
+			x.Eval(1)
+			if err != nil || got != e.KeyID() {
+				x.Fail("id-requirement-lost", "keyset %s: entry %d (id %#x, prefix %v): AddKey of its key on an empty manager returns id %#x, %v", desc, i, e.KeyID(), ks.Key[i].OutputPrefixType, got, err)
+				return
+			}
+		}
 	}
 	m := keyset.NewManagerFromHandle(hd)
 	h2, err := m.Handle()
